@@ -37,6 +37,7 @@ type PropCfg struct {
 	Extra       []string   `json:"extra_checks,omitempty"`
 	CFB         bool       `json:"cfb,omitempty"`
 	OnlySel     bool       `json:"only_selected,omitempty"` // do not attempt obligations outside the selection
+	KindPass    bool       `json:"kind_pass,omitempty"`     // C12: wrap-around kind discipline over every function
 }
 
 type KnownFinding struct {
@@ -228,6 +229,11 @@ func cmdCheck(args []string) {
 		} else if env.funcs[k] == nil && isLocalKey(env, k) {
 			unbound = append(unbound, "contract for missing function "+k)
 		}
+	}
+	if pc.KindPass {
+		ku := runKindDiscipline(env)
+		units = append(units, ku)
+		puOf[ku] = PropUnit{Unit: "kind-discipline", Sel: []string{"all"}}
 	}
 	unitOf := map[*Oblig]*Unit{}
 	for _, u := range units {
@@ -545,6 +551,9 @@ func writeReplay(vdir, prop string, o *Oblig, env *Env, repo string) replayInfo 
 		if src, ok := cfbReplayTest(o.Name); ok {
 			rr = runReplayTest(repo, src)
 		}
+	}
+	if o.Kind == "kind" {
+		rr = runReplayTest(repo, fmt.Sprintf(wrapReplayTest))
 	}
 	if o.Kind == "guard" || (prop == "C14" && o.Kind == "precondition") {
 		if src, marker, ok := raceReplayTest(o.Name); ok {
